@@ -177,6 +177,17 @@ pub fn verif_outline_rfind_nl(text: &String) -> (r: Option<usize>)
     ensures (r is None) == (str_breaks(text@) == 0),
             r matches Some(i) ==> i < text@.len() && i + 1 + last_line_len(text@) == text@.len(),
 { text.rfind('\n') }
+/// number of characters before the first line break (the whole text if it has none)
+pub open spec fn first_line_len(s: Seq<char>) -> nat
+    decreases s.len()
+{
+    if s.len() == 0 { 0 } else if s.first() == '\n' { 0 } else { first_line_len(s.drop_first()) + 1 }
+}
+#[verifier::external_body]
+pub fn verif_outline_find_nl(text: &String) -> (r: Option<usize>)
+    ensures (r is None) == (str_breaks(text@) == 0),
+            r matches Some(i) ==> i < text@.len() && i == first_line_len(text@),
+{ text.find('\n') }
 #[verifier::external_body]
 pub fn verif_outline_count_nl(text: &String) -> (r: usize)
     ensures r == str_breaks(text@),
@@ -208,6 +219,9 @@ impl Token {
 //@@ OUTLINE optional
 //@@< text.rfind('\n')
 //@@> verif_outline_rfind_nl(&text)
+//@@ OUTLINE optional
+//@@< $text.find('\n')
+//@@> verif_outline_find_nl(&$text)
 //@@ OUTLINE optional
 //@@< text.matches('\n').count()
 //@@> verif_outline_count_nl(&text)
